@@ -26,7 +26,7 @@ var props = map[string]*propCfg{
 	},
 	"C02": {
 		ID: "C02", Level: "exploration", QuickSecs: 75, ThoroughSecs: 1200,
-		Lanes: []lane{{Variant: "", Share: 3}, {Variant: "single", Share: 1}},
+		Lanes: []lane{{Variant: "", Share: 10}, {Variant: "single", Share: 4}, {Variant: "", Race: true, Share: 2}},
 		Rule: "one evaluation = one generated world (1-2 virtual repositories with configs, 1-3 workflows each composed from the fragment library biased to tie-makers - two or more diagnostics at one position, several candidates for 'the first' - plus corpus workflows/projects, defective callees, called workflows that are arguments themselves, files outside any repository; argument subset/order, cwd, path spelling, NumCPU, output mode) executed twice by the real Linter: the canonical run (identity map order, non-preemptive, zero latency) and a run under seeded map-iteration orders at every instrumented site, a seeded goroutine schedule and, per evaluation, another NumCPU or a second execution in the same process; distinct = distinct (world hash, interleaving signature = hash of the ordered kernel event trace, installed map modes, variant kind); non-trivial = at some scheduling point >= 2 tasks were runnable, or a map-range site iterated >= 2 keys in a non-identity order, or the CPU/repeat variant was used",
 		Assumptions: []string{
 			"oracle is purely differential (stdout bytes, exit status, every field of every []*Error, fatal or not); fatal error texts on stderr are not compared (the first of several concurrent fatal errors is legitimately schedule-dependent)",
